@@ -309,3 +309,10 @@ _TK = "vectorizers/token_cooccurrence_vectorizer.py::numba_build_skip_grams"
 for _p in ("C04", "C10"):
     PROPS[_p]["functions"] += sorted(_GL.CONTRACTS) + [_TK]
 PROPS["C03"]["functions"] += [_TK]
+
+_RX = "vectorizers/preprocessing.py::preprocess_token_sequences#reindex"
+for _p in ("C14", "C13", "C01"):
+    PROPS[_p]["functions"] += [_RX]
+PROPS["C14"]["level_text"] = ("Deductive (unbounded), re-indexing segment of preprocess_token_sequences: with a mask every sequence keeps its length, a removed token becomes the index "
+    "m = number of real tokens, the mask is exactly one extra entry with that last index, and the dictionary object passed in is not edited; without a mask sequences only get shorter. " + PROPS["C14"]["level_text"])
+PROPS["C14"]["explanation"] = PROPS["C14"]["level_text"]
